@@ -1,6 +1,7 @@
 CONSTANTS
   MaxId = 2
   ZeroIncBug = FALSE
+  OpenCleanupBug = FALSE
   OpenRaceBug = FALSE
   W = 2
   B = 1
